@@ -21,6 +21,7 @@ pub const SPEC: Spec = Spec {
     thorough_cases: 12_000,
     max_workers: 4,
     hang_is_violation: true,
+    scheduling_dependent: true,
     watchdog_s: 180,
     ..Spec::base("C20", "Results are independent of threads and scheduling", case)
 };
@@ -34,6 +35,9 @@ enum Job {
     /// n fresh type variables in one own context; the digest is the pattern of their names
     /// (first occurrence index), which is 0,1,2,.. exactly when names are unique in the context
     Names { n: usize },
+    /// build an own Elements environment (C allocations, sorting of fee outputs, hashing) from a
+    /// generated description and read it back through unit-source introspection jets
+    Env { seed: Vec<u8> },
 }
 
 fn digest_redeem(h: &mut Fnv, r: &RedeemNode) {
@@ -147,6 +151,25 @@ fn run_job(job: &Job) -> u64 {
             match r {
                 Ok(b) => h.write(&b),
                 Err(e) => h.write(e.to_string().as_bytes()),
+            }
+        }
+        Job::Env { seed } => {
+            let mut src = Src::new(seed);
+            let spec = crate::gen::txenv::gen_env(&mut src);
+            h.write_u64(spec.digest());
+            let env = spec.build();
+            for j in [Elements::Version, Elements::LockTime, Elements::ScriptCMR, Elements::TapEnvHash, Elements::TxHash, Elements::OutputsHash, Elements::InputsHash, Elements::NumInputs, Elements::NumOutputs, Elements::TxIsFinal, Elements::GenesisBlockHash, Elements::InternalKey, Elements::CurrentIndex, Elements::SigAllHash, Elements::OutputAmountsHash, Elements::IssuancesHash] {
+                let prog = Prog { nodes: vec![Ir::Jet(JetRef::Elements(j))], root: 0, family: Family::Elements };
+                match build_redeem(&prog, false, &std::collections::HashMap::new()) {
+                    Err(e) => h.write(format!("{:?}", e).as_bytes()),
+                    Ok(r) => match BitMachine::for_program(&r) {
+                        Err(e) => h.write(format!("refused {}", e).as_bytes()),
+                        Ok(mut mac) => match mac.exec(&r, &env) {
+                            Ok(v) => h.write(format!("ok {}", v).as_bytes()),
+                            Err(e) => h.write(format!("err {}", e).as_bytes()),
+                        },
+                    },
+                }
             }
         }
         Job::Names { n } => {
@@ -263,8 +286,12 @@ fn build_batch(cx: &mut Case) -> Batch {
     }
     let mut jobs: Vec<Job> = vec![];
     for _ in 0..n_jobs {
-        let job = match cx.src.weighted(&[4, 3, 2, 2, 1]) {
+        let job = match cx.src.weighted(&[4, 3, 2, 2, 1, 3]) {
             4 => Job::Names { n: cx.src.range(200, 3000) },
+            5 => {
+                let len = cx.src.range(40, 700);
+                Job::Env { seed: expand(cx.src.u32(), len) }
+            }
             0 => {
                 let len = cx.src.range(8, 160);
                 Job::Pipeline { seed: expand(cx.src.u32(), len), elements: cx.src.chance(80) }
@@ -295,6 +322,7 @@ fn build_batch(cx: &mut Case) -> Batch {
             Job::SharedCommit { prog, .. } => cx.fp.write(prog.cmr().as_ref()),
             Job::SharedValue { v } => cx.fp.write(v.ty().tmr().as_ref()),
             Job::Names { n } => cx.fp.write_u64(*n as u64),
+            Job::Env { seed } => cx.fp.write(seed),
         }
     }
     Batch { n_threads, jobs: Arc::new(jobs), assignment, reverse, shared_redeem: shared_redeem.len(), shared_commit: shared_commit.len(), fresh_process }
@@ -312,10 +340,76 @@ fn probe_program() -> Result<Arc<RedeemNode>, String> {
 /// first-use initialisation (name counter, thread-local type tables, the C layout check of the
 /// jet call) meets contention.  The digest does not depend on the names themselves, only on
 /// the pattern of their first occurrences (0,1,2,.. exactly when they are unique).
-fn probe_digest(probe: &RedeemNode) -> u64 {
+fn probe_types(h: &mut Fnv) {
+    // the library's own tables of precomputed types, small sizes first
+    for n in [1usize, 0, 3, 2, 5, 4, 7, 6] {
+        match simplicity::types::Final::buffer8_two_n_plus_one(n) {
+            Ok(t) => {
+                h.write(t.tmr().as_ref());
+                h.write_u64(t.bit_width() as u64);
+            }
+            Err(_) => h.write(b"too large"),
+        }
+        if let Ok(t) = simplicity::types::Final::two_two_n(n) {
+            h.write(t.tmr().as_ref());
+        }
+    }
+    let c = simplicity::types::Final::ctx8();
+    h.write(c.tmr().as_ref());
+    h.write_u64(c.bit_width() as u64);
+    // types of jets that use the library's precomputed word / buffer / context types
+    use simplicity::jet::Jet;
+    for j in [Core::Sha256Ctx8Init, Core::Sha256Ctx8Finalize, Core::Sha256Ctx8Add1, Core::Sha256Ctx8Add2, Core::Sha256Ctx8Add4, Core::Sha256Ctx8Add8, Core::Sha256Ctx8Add16, Core::Sha256Ctx8Add32, Core::Sha256Ctx8Add64, Core::Sha256Ctx8Add128, Core::Sha256Ctx8Add256, Core::Sha256Ctx8Add512, Core::Sha256Ctx8AddBuffer511, Core::Add64, Core::Sha256Block] {
+        for t in [j.source_ty().to_final(), j.target_ty().to_final()] {
+            h.write(t.tmr().as_ref());
+            h.write_u64(t.bit_width() as u64);
+        }
+    }
+}
+
+/// Build and drop eight own environments with 1000 fee outputs each (C allocations of equal sizes
+/// in every thread, the fee sort, the transaction hashes) and read each back through jets.
+fn probe_env(h: &mut Fnv, tag: u32) {
+    thread_local! {
+        static PROGS: Vec<Arc<RedeemNode>> = {
+            let mut v = vec![];
+            for j in [Elements::LockTime, Elements::ScriptCMR, Elements::OutputsHash, Elements::TxHash, Elements::NumOutputs] {
+                let p = Prog { nodes: vec![Ir::Jet(JetRef::Elements(j))], root: 0, family: Family::Elements };
+                v.push(build_redeem(&p, false, &std::collections::HashMap::new()).expect("one-jet program"));
+            }
+            for a in 0..24usize {
+                // comp (const asset id) jet_total_fee
+                let id = crate::gen::env::fee_asset(a * 8);
+                let bits: Vec<bool> = (0..256).map(|i| ((id[i / 8] >> (7 - (i % 8))) & 1) == 1).collect();
+                let p = Prog { nodes: vec![Ir::Word(8, bits), Ir::Jet(JetRef::Elements(Elements::TotalFee)), Ir::Comp(0, 1)], root: 2, family: Family::Elements };
+                v.push(build_redeem(&p, false, &std::collections::HashMap::new()).expect("total_fee program"));
+            }
+            v
+        };
+    }
+    for it in 0..8u32 {
+        let env = crate::gen::env::fee_env(tag * 16 + it, 1000);
+        PROGS.with(|ps| {
+            for r in ps {
+                match BitMachine::for_program(r) {
+                    Err(e) => h.write(format!("refused {}", e).as_bytes()),
+                    Ok(mut mac) => match mac.exec(r, &env) {
+                        Ok(v) => h.write(format!("ok {}", v).as_bytes()),
+                        Err(e) => h.write(format!("err {}", e).as_bytes()),
+                    },
+                }
+            }
+        });
+    }
+}
+
+fn probe_digest(probe: &RedeemNode, types_first: bool, tag: u32) -> u64 {
     let mut h = Fnv::new();
-    // the jet call first: it is the step whose first use matters most, and the threads are
-    // closest together right after the rendezvous
+    if types_first {
+        probe_types(&mut h);
+    }
+    // the jet call (first unless the types are): its first use in a process matters, and the
+    // threads are closest together right after the rendezvous
     match BitMachine::for_program(probe) {
         Err(e) => h.write(format!("refused {}", e).as_bytes()),
         Ok(mut mac) => match mac.exec(probe, &CoreEnv::new()) {
@@ -323,6 +417,10 @@ fn probe_digest(probe: &RedeemNode) -> u64 {
             Err(e) => h.write(format!("err {}", e).as_bytes()),
         },
     }
+    if !types_first {
+        probe_types(&mut h);
+    }
+    probe_env(&mut h, tag);
     types::Context::with_context(|ctx| {
         use simplicity::node::CoreConstructible;
         let mut seen: std::collections::HashMap<String, usize> = std::collections::HashMap::new();
@@ -341,6 +439,7 @@ fn run_concurrent(b: &Batch) -> Result<Vec<u64>, String> {
     let (jobs, assignment, reverse) = (b.jobs.clone(), b.assignment.clone(), b.reverse.clone());
     let barrier = Arc::new(Barrier::new(n_threads));
     let probe = probe_program()?;
+    let types_first = b.reverse.get(1).copied().unwrap_or(false);
     // a spin rendezvous behind the barrier: a condition-variable barrier wakes its threads one
     // after the other, tens of microseconds apart
     let arrived = Arc::new(std::sync::atomic::AtomicUsize::new(0));
@@ -365,8 +464,13 @@ fn run_concurrent(b: &Batch) -> Result<Vec<u64>, String> {
                         std::hint::spin_loop();
                         spins += 1;
                     }
-                    let p = probe_digest(&probe);
-                    (p, mine.into_iter().map(|j| (j, run_job(&jobs[j]))).collect::<Vec<(usize, u64)>>())
+                    // a panic is reported with its message and location (a panic in harness code
+                    // is a harness error, not a finding about the library)
+                    std::panic::catch_unwind(std::panic::AssertUnwindSafe(|| {
+                        let p = probe_digest(&probe, types_first, t as u32);
+                        (p, mine.into_iter().map(|j| (j, run_job(&jobs[j]))).collect::<Vec<(usize, u64)>>())
+                    }))
+                    .map_err(|_| crate::engine::run::last_panic().unwrap_or_default())
                 })
                 .map_err(|e| harness_error(format!("cannot spawn thread: {}", e)))?,
         );
@@ -375,7 +479,13 @@ fn run_concurrent(b: &Batch) -> Result<Vec<u64>, String> {
     let mut probes = vec![];
     for (t, h) in handles.into_iter().enumerate() {
         match h.join() {
-            Ok((p, results)) => {
+            Ok(Err((msg, loc))) => {
+                if loc.contains("/verif/") || loc.starts_with("src/") {
+                    return Err(harness_error(format!("harness panic in thread {}: {} at {}", t, msg, loc)));
+                }
+                return Err(format!("thread {} of {} panicked while running its jobs concurrently (the same jobs ran sequentially without panic): {} at {}", t, n_threads, msg, loc));
+            }
+            Ok(Ok((p, results))) => {
                 probes.push(p);
                 for (j, d) in results {
                     concurrent[j] = d;
@@ -384,19 +494,51 @@ fn run_concurrent(b: &Batch) -> Result<Vec<u64>, String> {
             Err(_) => return Err(format!("thread {} of {} panicked while running its jobs concurrently (the same jobs ran sequentially without panic)", t, n_threads)),
         }
     }
-    // the same probe on its own (after the threads have finished)
-    let alone = probe_digest(&probe);
-    for (t, p) in probes.iter().enumerate() {
-        if *p != alone {
-            return Err(format!("thread {} of {}: taking 5000 fresh variable names in an own context and calling jet_verify right after the common start gives another result than the same steps run alone (names not unique within the context, or the jet call failed)", t, n_threads));
-        }
-    }
+    // the per-thread probe digests follow the job digests; the caller compares them with the
+    // same probe run alone in ITS process (the child of a fresh-process case reports them to the
+    // parent, whose library state no concurrent first use has touched)
+    concurrent.extend(probes);
     Ok(concurrent)
 }
 
 /// Entry point of the child process of `fresh_process` cases (`vcheck-bin c20child <hex stream>`):
 /// rebuild the batch, run only the concurrent part, print the digests.
+/// 16 threads, each with its own probe program, released together: the very first thing that
+/// happens to the library in a fresh process.
+fn fresh_probe(types_first: bool) -> Vec<u64> {
+    let n = 16usize;
+    let arrived = Arc::new(std::sync::atomic::AtomicUsize::new(0));
+    let handles: Vec<_> = (0..n)
+        .map(|t| {
+            let arrived = arrived.clone();
+            std::thread::Builder::new()
+                .stack_size(64 << 20)
+                .spawn(move || {
+                    let probe = probe_program().ok();
+                    arrived.fetch_add(1, std::sync::atomic::Ordering::SeqCst);
+                    let mut spins = 0u64;
+                    while arrived.load(std::sync::atomic::Ordering::SeqCst) < n && spins < 200_000_000 {
+                        std::hint::spin_loop();
+                        spins += 1;
+                    }
+                    match probe {
+                        Some(p) => probe_digest(&p, types_first, t as u32),
+                        None => 0,
+                    }
+                })
+                .expect("spawn")
+        })
+        .collect();
+    handles.into_iter().map(|h| h.join().unwrap_or(1)).collect()
+}
+
+fn pre_probe_order(stream: &[u8]) -> bool {
+    stream.first().map(|b| b & 1 == 1).unwrap_or(false)
+}
+
 pub fn child_main(stream: &[u8]) -> i32 {
+    let pre = fresh_probe(pre_probe_order(stream));
+    println!("C20CHILD-PRE {}", pre.iter().map(|x| format!("{:016x}", x)).collect::<Vec<_>>().join(","));
     let known = Known::default();
     let mut cx = Case::new(stream, Tier::Quick, "C20", &known);
     let b = build_batch(&mut cx);
@@ -422,6 +564,18 @@ fn run_concurrent_in_fresh_process(stream: &[u8]) -> Result<Result<Vec<u64>, Str
         .map_err(|e| harness_error(format!("cannot start the child process: {}", e)))?;
     let text = String::from_utf8_lossy(&out.stdout);
     for line in text.lines() {
+        if let Some(rest) = line.strip_prefix("C20CHILD-PRE ") {
+            // the probe that 16 threads ran before anything else in the child
+            let probe_prog = probe_program()?;
+            for (t, x) in rest.split(',').filter(|x| !x.is_empty()).enumerate() {
+                let got = u64::from_str_radix(x, 16).map_err(|e| harness_error(format!("child output: {}", e)))?;
+                let alone = probe_digest(&probe_prog, pre_probe_order(stream), t as u32);
+                if got != alone {
+                    return Ok(Err(format!("thread {} of 16 in a fresh process: requesting precomputed jet types, calling jet_verify, building and reading own environments and taking fresh variable names, all threads at once as the first use of the library, gives another result than the same steps run alone", t)));
+                }
+            }
+            continue;
+        }
         if let Some(rest) = line.strip_prefix("C20CHILD-OK ") {
             let mut v = vec![];
             for x in rest.split(',').filter(|x| !x.is_empty()) {
@@ -459,14 +613,23 @@ pub fn case(cx: &mut Case) -> CaseResult {
         Some(c) => c,
         None => run_concurrent(&b)?,
     };
-    if concurrent.len() != n_jobs {
-        return Err(harness_error(format!("concurrent run returned {} digests for {} jobs", concurrent.len(), n_jobs)));
+    if concurrent.len() != n_jobs + n_threads {
+        return Err(harness_error(format!("concurrent run returned {} digests for {} jobs and {} threads", concurrent.len(), n_jobs, n_threads)));
+    }
+    let probes: Vec<u64> = concurrent[n_jobs..].to_vec();
+    let concurrent: Vec<u64> = concurrent[..n_jobs].to_vec();
+    let probe_prog = probe_program()?;
+    for (t, p) in probes.iter().enumerate() {
+        let alone = probe_digest(&probe_prog, b.reverse.get(1).copied().unwrap_or(false), t as u32);
+        if *p != alone {
+            return Err(format!("thread {} of {}: requesting precomputed jet types, calling jet_verify, building and reading six own environments with 300 fee outputs and taking 5000 fresh variable names in an own context right after the common start gives another result than the same steps run alone (wrong type, failed jet call, or names not unique within the context)", t, n_threads));
+        }
     }
     let threads_sharing = {
         // number of threads that touch some shared object
         let mut set = std::collections::HashSet::new();
         for (j, a) in jobs.iter().zip(assignment.iter()) {
-            if !matches!(j, Job::Pipeline { .. } | Job::Names { .. }) {
+            if !matches!(j, Job::Pipeline { .. } | Job::Names { .. } | Job::Env { .. }) {
                 set.insert(*a);
             }
         }
@@ -481,7 +644,7 @@ pub fn case(cx: &mut Case) -> CaseResult {
         _ => "16 threads",
     });
     cx.label_if(threads_sharing >= 2, "Arc shared by >= 2 threads");
-    cx.set_sample(|| json!({"jobs": n_jobs, "threads": n_threads, "shared_redeem_programs": shared_redeem, "shared_commit_programs": shared_commit, "kinds": jobs.iter().map(|j| match j { Job::Pipeline{..} => "pipeline", Job::SharedRedeem{..} => "shared redeem", Job::SharedCommit{..} => "shared commit", Job::SharedValue{..} => "shared value", Job::Names{..} => "variable names" }).collect::<Vec<_>>()}));
+    cx.set_sample(|| json!({"jobs": n_jobs, "threads": n_threads, "shared_redeem_programs": shared_redeem, "shared_commit_programs": shared_commit, "kinds": jobs.iter().map(|j| match j { Job::Pipeline{..} => "pipeline", Job::SharedRedeem{..} => "shared redeem", Job::SharedCommit{..} => "shared commit", Job::SharedValue{..} => "shared value", Job::Names{..} => "variable names", Job::Env{..} => "own environment" }).collect::<Vec<_>>()}));
     for j in 0..n_jobs {
         if sequential[j] != concurrent[j] {
             return Err(format!("job {} gives a different result when run concurrently ({} threads) than sequentially", j, n_threads));
